@@ -13,7 +13,7 @@
 """
 from cao.facts import (AnchorMissing, callee_names, short, op_local, op_place, DefUse, hir_walk, hir_callee, hir_strip,
                        hir_local_id)
-from cao.rules import Rule, ok, bad, undecided, note
+from cao.rules import Rule, ok, bad, undecided, note, shared
 from cao import mirutil as mu
 from rules.c16 import origin_call_block
 
@@ -804,7 +804,19 @@ def rule_c(F):
     return res
 
 
+def _c02_rule_k(F):
+    from rules import c02 as _c02
+    return _c02.rule_k(F)
+
+
+def _c02_rule_u(F):
+    from rules import c02 as _c02
+    return _c02.rule_u(F)
+
+
 RULES = [
+    Rule("C05.K", shared(_c02_rule_k, "C02.K", "C05.K"), 9, "guarded objects stay live: the collector never overwrites Protected (shared with C02.K)"),
+    Rule("C05.U", shared(_c02_rule_u, "C02.U", "C05.U"), 1, "survivors are unmarked after every collection, so the next one reclaims what became garbage (shared with C02.U)"),
     Rule("C05.A", rule_a, 5, "charge symmetry and who-may-write of the allocator counters"),
     Rule("C05.F", rule_f, 1, "a failed allocation refunds its charge"),
     Rule("C05.G", rule_g, 2, "collect before refusing; threshold from post-collection usage"),
